@@ -89,6 +89,10 @@ def impl_case(case):
     if k == "allvariants":
         ms = build(case[1])
         try:
+            if len(case) > 3:
+                # the same space OBJECT was used before, on another of its members
+                list(ms.all_variants(case[3]))
+                ms.apply_random_mutations(2, case[3])
             return tuple(ms.all_variants(case[2]))
         except KeyError:
             return None
@@ -315,6 +319,8 @@ def gen_cases(rng, tier):
                 cases.append(("apply", d, rng.choice([1, 2, 3, 7]), walk[1][0]))
                 if ch[0] == "ok" and ch[1][2] <= 2000:
                     cases.append(("allvariants", d, walk[1][0]))
+                    cases.append(("allvariants", d, walk[1][0], t))
+                    cases.append(("allvariants", d, t, walk[1][0]))
     for _ in range(40 * N):
         # many multi-variant choices: the size is a product far beyond 2**63 (no overflow, no wrap)
         m = rng.choice([20, 25, 26, 28, 30, 31, 32, 33, 40, 60])
